@@ -541,7 +541,7 @@ func checkC07(c *core.Ctx) error {
 	rng := core.NewRand(c.Seed)
 	nSample, offsetsPer := 200, 3
 	if !c.Quick() {
-		nSample, offsetsPer = 5000, 0
+		nSample, offsetsPer = 1500, 24
 	}
 	// always: every single-edit history without crash (fixed core), then a seeded sample of the rest
 	var chosen []int
@@ -790,7 +790,7 @@ func checkC07(c *core.Ctx) error {
 	c.Set("model_drift_runs", drift)
 	c.Set("rule", "TLC enumerates Regen.tla (all versions of a 4-call-site package x <=2 edits (add/remove call, retype field, retype argument, retype the map feeding a nested derive call) x one interrupted write of the old or new output in 5 truncation classes); all single-edit histories plus a seeded sample are realised: v1 generated, edited to v2, derived.gen.go truncated at byte offsets of the class, one real run compared with a scratch run; non-trivial = two edits or a truncated file")
 	c.Set("exhaustive", false)
-	c.Assume("truncation offsets: quick samples 3 per class (first, last, random); thorough enumerates every byte offset of the class")
+	c.Assume("truncation offsets: quick samples 3 per class (first, last, random), thorough 24; witness minimisation re-runs sub-histories at a deterministic probe set (every offset of the header classes, every byte of signature lines)")
 	return nil
 }
 
